@@ -35,7 +35,7 @@ CONS = {
     "none": ["none"],
     "lin": ["lin_le", "lin_two", "lin_eq"],
     "nl": ["ball_le", "ball_two", "ball_eq"],
-    "both": ["lin+nl", "lin_eq+nl_eq"],
+    "both": ["lin+nl", "lin_eq+nl_eq", "lin+cubic"],
 }
 
 
